@@ -74,7 +74,7 @@ def install(ex, prog, state):
         ex.stubs['arg_val_' + tyid(t)] = mk_arg('val', lambda ex_, t=t: cm.value_for(ex_, t, 2)[0])
 
 
-def global_state(ex, prog, mode):
+def global_state(ex, prog, mode, keep_holder=False):
     """The holder: UNSET, or COMPLETE with a client built by the builder's own MIR (prefix, default tag, handler; sink outcome symbolic)."""
     if mode == 'unset':
         cellv = Native('UnsafeCell', Cell(NONE, 'holder-value'), fresh_id())
@@ -83,8 +83,9 @@ def global_state(ex, prog, mode):
     client = cm.build_client(ex, prog, cfg)
     if mode in ('set-api', 'set-twice'):
         # the state is produced by the real set_global_default on an UNSET holder (a second call must be a no-op)
-        holder = global_state(ex, prog, 'unset')
-        ex.globals = {'SingletonHolder<StatsdClient>': Cell(holder, 'HOLDER')}
+        if not keep_holder:
+            holder = global_state(ex, prog, 'unset')
+            ex.globals = {'SingletonHolder<StatsdClient>': Cell(holder, 'HOLDER')}
         setter = [k for k in prog.funcs if k.endswith('set_global_default')]
         if len(setter) != 1:
             raise Unsupported('set_global_default not found (%d)' % len(setter))
@@ -150,7 +151,7 @@ def run(out, replay_path=None):
         if meth not in api_done and nt == 0:
             # once per macro kind: the global state as left by set_global_default called once / twice
             api_done.add(meth)
-            modes += ['set-api', 'set-twice']
+            modes += ['set-api', 'set-twice', 'late-set']
         for mode in modes:
             logs = {}
             for which in ('m', 'r'):
@@ -163,14 +164,24 @@ def run(out, replay_path=None):
                 results = []
 
                 def entry(ex, which=which, n=n, mode=mode, tr=tr):
+                    from .stubs import Unwinding
                     ex.out['generic_T'] = dict((m_[1], m_[0]) for m_ in MACROS) and {'Counted': 'Counter', 'Timed': 'Timer', 'Gauged': 'Gauge', 'Metered': 'Meter',
                                                                                   'Histogrammed': 'Histogram', 'Distributed': 'Distribution', 'Setted': 'Set'}[tr]
-                    holder = global_state(ex, prog, mode)
-                    ex.globals = {'SingletonHolder<StatsdClient>': Cell(holder, 'HOLDER')}
-                    ex.events = [e for e in ex.events if False]
                     fn = [k for k in prog.funcs if k.endswith('%s_%s' % (which, n)) and ('macro_driver' in prog.funcs[k].crate)]
                     if len(fn) != 1:
                         raise Unsupported('driver function %s_%s not found (%d)' % (which, n, len(fn)))
+                    if mode == 'late-set':
+                        # the same thread used the macro before any client was set (it panicked, as documented), then
+                        # the client is set through the API: from then on the macro must work
+                        holder = global_state(ex, prog, 'unset')
+                        ex.globals = {'SingletonHolder<StatsdClient>': Cell(holder, 'HOLDER')}
+                        try:
+                            ex.call(fn[0], [])
+                        except Unwinding:
+                            pass
+                    holder = global_state(ex, prog, 'set-api' if mode == 'late-set' else mode, keep_holder=(mode == 'late-set'))
+                    ex.globals = {'SingletonHolder<StatsdClient>': Cell(holder, 'HOLDER')}
+                    ex.events = [e for e in ex.events if False]
                     return ex.call(fn[0], [])
 
                 def on_path(ex, res, status):
@@ -223,7 +234,7 @@ def run(out, replay_path=None):
             'queries': tot, 'evaluations': max(1, tot['total']), 'distinct_nontrivial': paths,
             'rule': 'one case = one feasible symbolic path of a macro expansion or of its reference call chain; per (macro, value type, tag count, global state) the two path sets must have identical event logs',
             'solver_time_s': round(st, 2), 'functions_encoded': sorted(fns)[:400], 'stubs': sorted(stubs_),
-            'bounds': {'macros': 7, 'driver_functions': len(sel), 'tags': '0..2', 'global_states': ['UNSET', 'COMPLETE(client with prefix, default tag, container id, handler, symbolic sink outcome)', 'UNSET then set_global_default (real MIR) once', '... twice (0-tag form of each macro kind)']},
+            'bounds': {'macros': 7, 'driver_functions': len(sel), 'tags': '0..2', 'global_states': ['UNSET', 'COMPLETE(client with prefix, default tag, container id, handler, symbolic sink outcome)', 'UNSET then set_global_default (real MIR) once', '... twice', 'macro used on this thread while UNSET (panic), then set_global_default, then the macro (0-tag form of each macro kind)']},
             'mir': dinfo, 'samples': samples or [{'note': 'none'}],
         },
     }
